@@ -193,6 +193,12 @@ def systematic_flat():
     cases.append(case(F3, cross([1, 2, 3, 4], [1, 2]), "A", ["width3", "uncrossed-window"], "sys-w3-uncrossed"))
     cases.append(case(F3, cross([1, 2, 3], [2, 3]), "A", ["width3", "crossed-window"], "sys-w3-crossed"))
     cases.append(case(F3, cross([1, 2, 4], [1], [K("AtMostKInARow", k=1, f=4, l=2)]), "A", ["transition3"], "sys-tr3"))
+    # a preamble of two trials with two basic factors, small enough for the complete draw tree (C05)
+    F3s = [basic("a", 2), basic("b", 2)]
+    F3s.append(derived(F3s, "w3", [1], "window", width=3, table=eq_table(F3s, [1], 3)))
+    cases.append(case(F3s, cross([1, 2, 3], [3]), "A", ["width3", "crossed-window", "preamble2"], "sys-w3-small-x3"))
+    cases.append(case(F3s, cross([1, 3], [3]), "A", ["width3", "crossed-window", "preamble2"], "sys-w3-small-x3-a"))
+    cases.append(case(F3s, cross([1, 2, 3], [2, 3]), "A", ["width3", "crossed-window", "preamble2"], "sys-w3-small-x23"))
     F4 = stroop()
     F4.append(derived(F4, "cc", [3, 4], "within", table=eq_table(F4, [3, 4])))   # within-trial of a transition: complex
     cases.append(case(F4, cross([1, 2, 3, 4, 5], [1, 2]), "A", ["derived-of-derived"], "sys-dd-uncrossed"))
@@ -564,6 +570,24 @@ def large_cases(rng, n_random=0):
     add("multi-ab-ac", F, gb.multi([1, 2, 3, 4], [[1, 2], [1, 3]]), ["Multi"])
     add("multi-ab-bt", F, gb.multi([1, 2, 3, 4], [[1, 2], [2, 4]], [K("AtMostKInARow", k=2, f=1, l=0)]),
         ["Multi", "transition-crossed"])
+    # Nest and Merge at 12-24 trials
+    N = [basic("o", 3), basic("i", 2), basic("j", 2), basic("u", 2)]
+    N.append(derived(N, "ij", [2, 3], "within", table=eq_table(N, [2, 3])))
+    N.append(derived(N, "ri", [2], "transition", table=eq_table(N, [2], 2)))
+    N.append(derived(N, "ro", [1], "transition", table=eq_table(N, [1], 2)))
+    add("nest-o-ij", N, gb.nest(cross([1], [1]), cross([2, 3, 5], [2, 3])), ["Nest", "implied-derived"])
+    add("nest-o-ij-atmost", N, gb.nest(cross([1], [1]), cross([2, 3, 5], [2, 3], [K("AtMostKInARow", k=1, f=5, l=1)])), ["Nest", "inner"])
+    add("nest-ou-ij-outer-atmost", N, gb.nest(cross([1, 4], [1], [K("AtMostKInARow", k=1, f=1, l=1)]), cross([2, 3], [2, 3])),
+        ["Nest", "outerblock", "outer-uncrossed"])
+    add("nest-o-iri", N, gb.nest(cross([1], [1]), cross([2, 6], [2, 6])), ["Nest", "inner-preamble"])
+    add("nest-oro-i", N, gb.nest(cross([1, 7], [1, 7]), cross([2], [2])), ["Nest", "outer-preamble"])
+    add("nest-o-ij-on-exk", N, gb.nest(cross([1], [1]), cross([2, 3], [2, 3]), [K("ExactlyK", k=3, f=3, l=1)]), ["Nest", "outer"])
+    add("merge-ij-o-repeat", N, gb.merge([cross([2, 3], [2, 3]), cross([1], [1])], [K("MinimumTrials", k=12)], "repeat", "equal"),
+        ["Merge", "repeat"])
+    add("merge-ij-o-weight", N, gb.merge([cross([2, 3], [2, 3], [K("AtMostKInARow", k=1, f=2, l=1)]), cross([1], [1])],
+                                         [K("MinimumTrials", k=12)], "weight", "equal"), ["Merge", "weight", "inner"])
+    add("merge-iri-o-post", N, gb.merge([cross([2, 6], [2, 6]), cross([1], [1])], [K("MinimumTrials", k=10)], "repeat", "post"),
+        ["Merge", "post", "preamble"])
     for c in random_flat(rng, n_random, max_T=16, min_T=9, est_cap=1e30):
         c["id"] = "lg-" + c["id"]
         out.append(c)
